@@ -84,7 +84,15 @@ func show(b []byte) string {
 	if b == nil {
 		return "<nil>"
 	}
-	return fmt.Sprintf("%q", b)
+	return fmt.Sprintf("%q", short(b))
+}
+
+// short abbreviates a long byte string for messages (length, head and tail kept).
+func short(b []byte) []byte {
+	if len(b) <= 64 {
+		return b
+	}
+	return []byte(fmt.Sprintf("%s...(%d bytes)...%s", b[:16], len(b), b[len(b)-8:]))
 }
 
 // ReadOpts selects how a snapshot is read back.
@@ -210,6 +218,30 @@ func checkNode(ss moss.Snapshot, c *Concr, want Content, paths []string, p strin
 	if !sameSeq(gotKeys, wantKeys) || !sameSeq(gotVals, wantVals) {
 		out = append(out, Mismatch{What: what + ".iter", Path: p, Got: showKV(gotKeys, gotVals), Want: showKV(wantKeys, wantVals)})
 	}
+	// iterator re-positioning (C09 on whatever shape the snapshot has, and the closer
+	// paths of C02/C15): run a second iterator to exhaustion, seek back to the first
+	// live key (which rebuilds a heap iterator), then seek past the end
+	if len(wantKeys) > 0 {
+		it2, err := ss.StartIterator(nil, nil, moss.IteratorOptions{})
+		if err == nil && it2 != nil {
+			for n := 0; n < 10000; n++ {
+				if it2.Next() != nil {
+					break
+				}
+			}
+			serr := it2.SeekTo(wantKeys[0])
+			k, v, cerr := it2.Current()
+			if serr != nil || cerr != nil || !bytes.Equal(k, wantKeys[0]) || !sameBytes(v, wantVals[0]) {
+				out = append(out, Mismatch{What: what + ".seek", Path: p, Got: fmt.Sprintf("SeekTo(first) after exhaustion: %q=%s err=%v/%v", short(k), show(v), serr, cerr),
+					Want: fmt.Sprintf("%q=%s", short(wantKeys[0]), show(wantVals[0]))})
+			}
+			last := append(append([]byte{}, wantKeys[len(wantKeys)-1]...), 0xff, 0xff)
+			if err := it2.SeekTo(last); err != moss.ErrIteratorDone {
+				out = append(out, Mismatch{What: what + ".seek", Path: p, Got: fmt.Sprintf("SeekTo(beyond last) = %v", err), Want: "ErrIteratorDone"})
+			}
+			it2.Close()
+		}
+	}
 	// children
 	names, err := ss.ChildCollectionNames()
 	if err != nil {
@@ -274,7 +306,7 @@ func showKV(k, v [][]byte) string {
 		if i > 0 {
 			s += " "
 		}
-		s += fmt.Sprintf("%q=%s", k[i], show(v[i]))
+		s += fmt.Sprintf("%q=%s", short(k[i]), show(v[i]))
 	}
 	return s + "]"
 }
